@@ -345,7 +345,12 @@ fn fault_events(rng: &mut Rng, s: &[u8], allow_other: bool) -> String {
         match rng.below(8) {
             0 | 1 => toks.push("W".into()),
             2 => toks.push("I".into()),
-            3 if allow_other => toks.push(if rng.chance(1, 2) { "O".into() } else { "E".into() }),
+            3 if allow_other => toks.push(match rng.below(4) {
+                0 => "O".to_string(),
+                1 => format!("O{}", (b'a' + rng.below(16) as u8) as char),
+                2 => "E".to_string(),
+                _ => rng.pick(&["Ee", "Ex"]).to_string(),
+            }),
             4 => {
                 toks.push("W".into());
                 toks.push("W".into());
